@@ -223,8 +223,8 @@ def _construction(ctx) -> None:
 
 def _joins(ctx) -> None:
     for v in VARIANTS:
-        jf = JoinFacts(ctx.prog, v)
-        jr.wrap(ctx, jf, rule="f.joins")
+        from ..joinsx import JoinModel
+        jr.wrap(ctx, JoinModel(ctx.prog, v), rule="f.joins")
 
 
 def _groups(ctx) -> None:
